@@ -251,7 +251,60 @@ func c27Update(r *core.Run, p *core.Prog) {
 				}
 			}
 		}
+		hz := appendAliasHazards(p, u)
+		r.Check("diff-sets", "updateSelected:work-lists-do-not-share-memory", p.Rel(u.Decl.Pos()), len(hz) == 0, strings.Join(hz, "; "))
 		r.Check("diff-sets", "updateSelected:changed-interfaces-are-restarted", p.Rel(u.Decl.Pos()), upd != nil && inDis && inEn,
 			"interfaces whose configuration differs from the applied one (Equals false) must be in both the disable and the enable list handed to update")
 	}
+}
+
+// appendAliasHazards: two append calls in one function extend the same base slice variable and
+// keep both results: when the base has spare capacity both results share its backing array and
+// the second append overwrites the elements the first one added.
+func appendAliasHazards(p *core.Prog, f *core.Fn) []string {
+	info := f.Info()
+	type use struct {
+		dst types.Object
+		pos token.Pos
+	}
+	byBase := map[types.Object][]use{}
+	core.Walk(f.Decl.Body, false, func(x ast.Node) bool {
+		var lhs []ast.Expr
+		var rhs []ast.Expr
+		switch s := x.(type) {
+		case *ast.AssignStmt:
+			lhs, rhs = s.Lhs, s.Rhs
+		case *ast.ValueSpec:
+			for _, n := range s.Names {
+				lhs = append(lhs, n)
+			}
+			rhs = s.Values
+		default:
+			return true
+		}
+		if len(lhs) != len(rhs) {
+			return true
+		}
+		for i, rh := range rhs {
+			c, ok := ast.Unparen(rh).(*ast.CallExpr)
+			if !ok || core.CallName(info, c) != "builtin.append" || len(c.Args) < 2 {
+				continue
+			}
+			base := core.ObjOf(info, c.Args[0])
+			dst := core.ObjOf(info, lhs[i])
+			if base == nil || dst == nil || base == dst {
+				continue // x = append(x, …) is the normal growing idiom
+			}
+			byBase[base] = append(byBase[base], use{dst, c.Pos()})
+		}
+		return true
+	})
+	var out []string
+	for base, us := range byBase {
+		if len(us) < 2 {
+			continue
+		}
+		out = append(out, fmt.Sprintf("%s and %s are both built by appending to %s (%s, %s): with spare capacity in %s they share one backing array and the later append overwrites what the earlier one added", us[0].dst.Name(), us[1].dst.Name(), base.Name(), p.Rel(us[0].pos), p.Rel(us[1].pos), base.Name()))
+	}
+	return out
 }
